@@ -384,7 +384,7 @@ func genWire(seed uint64, tier, mode string) *Script {
 			case r < 25:
 				ops = append(ops, Op{Kind: "valid", Actor: 0, N: g.n(1 << 30)})
 			case r < 75:
-				ops = append(ops, Op{Kind: "mutate", Actor: 0, N: g.n(1 << 30), Arg: pick(g, []string{"flip", "flip", "insert", "delete", "truncate", "lenfield", "attrlen", "attrwrap", "random", "type", "openmut", "bigclaim"})})
+				ops = append(ops, Op{Kind: "mutate", Actor: 0, N: g.n(1 << 30), Arg: pick(g, []string{"flip", "flip", "insert", "delete", "truncate", "lenfield", "attrlen", "attrwrap", "mpnlri", "mpnlri", "random", "type", "openmut", "bigclaim"})})
 			case r < 85:
 				ops = append(ops, Op{Kind: "render", Actor: 0})
 			case r < 92:
@@ -917,6 +917,47 @@ func (w *simWorld) wireFuzzOp(st *wireState, op *Op, ensureUp func() bool, settl
 			body := []byte{0, 0, 0, byte(4 + len(val)), 0x90 | byte(g.n(2))<<6, typ, byte(al >> 8), byte(al)}
 			body = append(body, val...)
 			body = append(body, 24, 10, 77, byte(g.n(200)))
+			msg = append(wHeader(wUpdate, len(body)), body...)
+		case "mpnlri":
+			// MP_REACH_NLRI / MP_UNREACH_NLRI of one of the less common families, its NLRI field made
+			// of 1-3 entries whose declared length disagrees with the octets present (too short for
+			// the fixed part of the NLRI with more data following, or longer than what is left)
+			fams := [][2]int{{1, 4}, {2, 4}, {1, 128}, {2, 128}, {1, 133}, {2, 133}, {1, 134}, {2, 134}, {25, 134}, {25, 70}, {25, 65},
+				{1, 132}, {1, 73}, {2, 73}, {16388, 71}, {16388, 72}, {1, 85}, {2, 85}, {1, 7}, {2, 7}, {1, 2}, {1, 5}, {2, 129}, {16397, 241}}
+			fm := pick(g, fams)
+			var nlri []byte
+			for k := g.rng(1, 3); k > 0; k-- {
+				have := pick(g, []int{0, 1, 3, 7, 8, 9, 12, 16, 25, 40})
+				decl := pick(g, []int{0, 1, 2, 5, 7, 8, have, have + 1, have * 8, 24, 64, 120, 0xf0, 0xff})
+				if fm[1] == 70 || fm[1] == 85 || fm[1] == 71 || fm[1] == 72 {
+					// route type first (EVPN, MUP: type + length; BGP-LS: 2-octet type + 2-octet length)
+					nlri = append(nlri, byte(1+g.n(6)))
+					if fm[1] == 85 {
+						nlri = append(nlri, 0, byte(1+g.n(4)))
+					}
+					if fm[1] == 71 || fm[1] == 72 {
+						nlri = append([]byte{0}, nlri...)
+						nlri = append(nlri, 0)
+					}
+				}
+				nlri = append(nlri, byte(decl))
+				for j := 0; j < have; j++ {
+					nlri = append(nlri, byte(g.n(256)))
+				}
+			}
+			var mp []byte
+			if g.p(70) {
+				nh := make([]byte, pick(g, []int{0, 4, 12, 16, 24, 32}))
+				mp = append([]byte{byte(fm[0] >> 8), byte(fm[0]), byte(fm[1]), byte(len(nh))}, nh...)
+				mp = append(mp, 0)
+				mp = append(mp, nlri...)
+				mp = wEncodeAttr(0x80, 14, mp)
+			} else {
+				mp = wEncodeAttr(0x80, 15, append([]byte{byte(fm[0] >> 8), byte(fm[0]), byte(fm[1])}, nlri...))
+			}
+			attrs := append(wEncodeAttr(0x40, 1, []byte{0}), wEncodeAttr(0x40, 2, nil)...)
+			attrs = append(attrs, mp...)
+			body := append([]byte{0, 0, byte(len(attrs) >> 8), byte(len(attrs))}, attrs...)
 			msg = append(wHeader(wUpdate, len(body)), body...)
 		case "random":
 			n := 19 + g.n(60)
